@@ -108,7 +108,27 @@ Inductive base_case :=
 | KTrunc (eos : Z) (masked targets : list Z)
 | KOOV (oovs masked : list Z) (pp : bool) (targets : list Z)
 | KLen (masked targets : list Z)
-| KConf (nc : Z) (s : list Z) (t : Z).
+| KConf (nc : Z) (s : list Z) (t : Z)
+(* exhaustive small grids (wave 5): every score vector over {0,1,2} with up to cmax classes x every target x
+   k = -2 .. classes+1 for TopKAccuracy (and Accuracy); every target sequence over {0 = masked, 1, 2 = eos} up to
+   length lmax for the four prediction-free sequence statistics; the observation is the list of all values *)
+| KGridTopK (cmax : nat)
+| KGridSeq (lmax : nat).
+
+Fixpoint vectors (vals : list Z) (n : nat) : list (list Z) :=
+  match n with
+  | O => [[]]
+  | S n' => flat_map (fun x => map (cons x) (vectors vals n')) vals
+  end.
+Definition zrange (a : Z) (n : nat) : list Z := map (fun i => a + Z.of_nat i) (seq 0 n).
+Definition grid_topk (ftop : Z -> Z -> list Z -> Z * Z) (facc : Z -> list Z -> Z * Z) (cmax : nat) : list Z :=
+  flat_map (fun c => flat_map (fun s => flat_map (fun t =>
+    fst (facc t s) :: map (fun k => fst (ftop k t s)) (zrange (-2) (c + 4))) (zrange 0 c)) (vectors [0; 1; 2] c)) (seq 1 cmax).
+Definition grid_seq (ftrunc : Z -> list Z -> list Z -> Z * Z) (flen : list Z -> list Z -> Z * Z)
+           (fcount fscount : list Z -> list Z -> Z) (lmax : nat) : list Z :=
+  flat_map (fun l => flat_map (fun ts =>
+    [fst (ftrunc 2 [0] ts); snd (ftrunc 2 [0] ts); fst (flen [0] ts); snd (flen [0] ts); fcount [0] ts; fscount [0] ts])
+    (vectors [0; 1; 2] l)) (seq 1 lmax).
 
 (* flattened statistic: shape of accum, accum values, weight values ([] for SumStat) *)
 Inductive result :=
@@ -147,6 +167,10 @@ Definition eval_base (c : base_case) : result :=
       | Some m => RSum [nc; nc] (map zq (concat m))
       | None => RErr
       end
+  | KGridTopK cmax => let g := grid_topk gen_topk gen_accuracy cmax in RSum [Z.of_nat (length g)] (map zq g)
+  | KGridSeq lmax =>
+      let g := grid_seq gen_seq_trunc gen_seq_length gen_seq_token_count gen_seq_count lmax in
+      RSum [Z.of_nat (length g)] (map zq g)
   end.
 
 Definition zeros_like (l : list Q) : list Q := map (fun _ => 0%Q) l.
